@@ -293,6 +293,13 @@ func genReal(seed int64, idx int, profile string, poll int) scen.E2E {
 			p.Conns = 18 + rng.Intn(24)
 			p.NOps = 60 + rng.Intn(200)
 		}
+		if idx%4 == 3 {
+			// the client closes its connections in mid-flight
+			p.Teardown = true
+			p.Conns = 1 + rng.Intn(4)
+			p.NOps = 4 + rng.Intn(20)
+			cfg.SrvPoll = idx%8 == 7
+		}
 	case "streams":
 		p.Streams = 1 + rng.Intn(6)
 		p.Callers = rng.Intn(4)
